@@ -4,8 +4,10 @@ import (
 	"bytes"
 	"encoding/hex"
 	"fmt"
+	"io"
 	"reflect"
 	"strings"
+	"testing/iotest"
 	"time"
 
 	"github.com/M2MGateway/go-smpp/sms"
@@ -13,22 +15,29 @@ import (
 
 // ---------------------------------------------------------------- running the implementation
 type smsObs struct {
-	Class     int         // 0 returned a value, 1 returned an error, 2 panicked
-	Packet    interface{} // when Class == 0
-	Name      string      // struct name
-	PanicMsg  string
-	EncClass  int    // outcome class of sms.Marshal on the packet (only when Class == 0)
-	EncErr    string // error text of Marshal, if any
-	Out       []byte // octets written by Marshal
-	EncPanic  string
-	ValidType bool   // packet is a pointer to one of the eight structs
-	Term      string // Gallina observables of the decoded struct, taken BEFORE Marshal (which writes into SubmitFlags)
+	Class      int         // 0 returned a value, 1 returned an error, 2 panicked
+	Packet     interface{} // when Class == 0
+	Name       string      // struct name
+	PanicMsg   string
+	EncClass   int    // outcome class of sms.Marshal on the packet (only when Class == 0)
+	EncErr     string // error text of Marshal, if any
+	Out        []byte // octets written by Marshal
+	EncPanic   string
+	Again      []byte // octets written by a second Marshal of the same packet
+	AgainOK    bool
+	AgainPanic string
+	ValidType  bool   // packet is a pointer to one of the eight structs
+	Term       string // Gallina observables of the decoded struct, taken BEFORE Marshal (which writes into SubmitFlags)
 }
 
-func smsRun(in []byte) (o smsObs) {
+func smsRun(in []byte) (o smsObs) { return smsRunReader(bytes.NewReader(in)) }
+
+// smsRunReader decodes from any reader, then (when a value came back) re-encodes it twice:
+// Marshal writes into the SubmitFlags of its argument, the second call must write the same octets.
+func smsRunReader(rd io.Reader) (o smsObs) {
 	var p interface{}
 	var err error
-	panicked, msg := guard(func() { p, err = sms.Unmarshal(bytes.NewReader(in)) })
+	panicked, msg := guard(func() { p, err = sms.Unmarshal(rd) })
 	switch {
 	case panicked:
 		o.Class, o.PanicMsg = 2, msg
@@ -55,8 +64,115 @@ func smsRun(in []byte) (o smsObs) {
 		o.EncClass, o.EncErr = 1, merr.Error()
 	default:
 		o.Out = append([]byte{}, buf.Bytes()...)
+		var again bytes.Buffer
+		p2, m2 := guard(func() { _, merr = sms.Marshal(&again, p) })
+		o.Again = append([]byte{}, again.Bytes()...)
+		o.AgainOK = !p2 && merr == nil
+		if p2 {
+			o.AgainPanic = "panic: " + m2
+		}
 	}
 	return
+}
+
+// ---------------------------------------------------------------- readers that deliver the same octets differently
+// schedReader hands out the octets in chunks of the scheduled sizes (then one octet per call); with
+// eofWithData the last chunk comes together with io.EOF, otherwise io.EOF follows on the next call.
+type schedReader struct {
+	data        []byte
+	sched       []int
+	eofWithData bool
+}
+
+func (s *schedReader) Read(p []byte) (int, error) {
+	if len(s.data) == 0 {
+		return 0, io.EOF
+	}
+	if len(p) == 0 {
+		return 0, nil
+	}
+	n := 1
+	if len(s.sched) > 0 {
+		n, s.sched = s.sched[0], s.sched[1:]
+		if n < 1 {
+			n = 1
+		}
+	}
+	if n > len(p) {
+		n = len(p)
+	}
+	if n > len(s.data) {
+		n = len(s.data)
+	}
+	copy(p, s.data[:n])
+	s.data = s.data[n:]
+	if len(s.data) == 0 && s.eofWithData {
+		return n, io.EOF
+	}
+	return n, nil
+}
+
+type smsReaderKind struct {
+	Name string
+	New  func(rng *Rng, in []byte) io.Reader
+}
+
+func randSched(rng *Rng, n int) []int {
+	var sc []int
+	for left := n; left > 0; {
+		k := rng.Pick([]int{1, 1, 2, 3, 5, 7, 8, 13, 64})
+		sc = append(sc, k)
+		left -= k
+	}
+	return sc
+}
+
+var smsReaderKinds = []smsReaderKind{
+	{"one-octet-per-read", func(_ *Rng, in []byte) io.Reader { return iotest.OneByteReader(bytes.NewReader(in)) }},
+	{"half-reads", func(_ *Rng, in []byte) io.Reader { return iotest.HalfReader(bytes.NewReader(in)) }},
+	{"eof-with-last-data", func(_ *Rng, in []byte) io.Reader { return iotest.DataErrReader(bytes.NewReader(in)) }},
+	{"scheduled-chunks", func(rng *Rng, in []byte) io.Reader {
+		return &schedReader{data: append([]byte{}, in...), sched: randSched(rng, len(in)), eofWithData: rng.Bool()}
+	}},
+}
+
+// smsReaderIndependence: the outcome of sms.Unmarshal depends on the octets only, not on how the
+// reader hands them out.  o is the observation through bytes.NewReader; every listed reader must give
+// the same outcome class and (when a value came back) the same observables and re-encoding.
+func smsReaderIndependence(r *Run, in []byte, o smsObs, label, input string) {
+	for _, k := range smsReaderKinds {
+		o2 := smsRunReader(k.New(r.Rng, in))
+		same := o2.Class == o.Class && o2.Term == o.Term && o2.Name == o.Name && o2.EncClass == o.EncClass && bytes.Equal(o2.Out, o.Out)
+		if same {
+			continue
+		}
+		show := func(x smsObs) string {
+			switch x.Class {
+			case 2:
+				return "panic: " + x.PanicMsg
+			case 1:
+				return "error"
+			}
+			return fmt.Sprintf("%s %+v", x.Name, x.Packet)
+		}
+		r.Fail("reader/"+k.Name+"/"+label, "sms.Unmarshal gives a different result when the same octets arrive through a reader that returns them in smaller pieces",
+			input, show(o2), "as through bytes.NewReader: "+show(o))
+	}
+}
+
+// smsMarshalTwice: Marshal writes the validity-period format into its argument.  A second call on the same
+// structure must return normally (C18) and, for the well-formed TPDUs of C19, write the same octets again.
+func smsMarshalTwice(r *Run, o smsObs, label, input string, sameOctets bool) {
+	if o.Class != 0 || !o.ValidType || o.EncClass != 0 {
+		return
+	}
+	if o.AgainPanic != "" {
+		r.Fail("marshal-panic/second-call/"+label, "sms.Marshal panicked when called a second time on a structure sms.Unmarshal returned", input,
+			"panic: "+o.AgainPanic, "Marshal returns normally")
+	} else if sameOctets && (!o.AgainOK || !bytes.Equal(o.Out, o.Again)) {
+		r.Fail("roundtrip/second-marshal/"+label, "a second sms.Marshal of the same decoded structure does not reproduce the TPDU", input,
+			hex.EncodeToString(o.Again), hex.EncodeToString(o.Out))
+	}
 }
 
 // ---------------------------------------------------------------- Go value -> Gallina observable ([oval] of Model/Tpdu.v)
@@ -263,7 +379,10 @@ func randUD(r *Rng) (udl byte, ud []byte) {
 //
 //	kinds: deliver, deliver-report, deliver-report-error, submit, submit-report,
 //	       submit-report-error, status-report, command
-func smsBase(r *Rng, kind string) tpduSegs {
+//
+// variant v (0, 1, 2, ...) walks the SMS-SUBMIT validity-period formats: v%4 = TP-VPF, and for the enhanced format
+// (v%4 == 1) the four sub-formats starting with hh:mm:ss, so that the first bases of a run cover every decoder branch
+func smsBase(r *Rng, kind string, v int) tpduSegs {
 	var t tpduSegs
 	add := func(n string, b ...byte) { t = append(t, seg{n, b}) }
 	pi := func() byte { return byte(r.Intn(8)) }
@@ -307,6 +426,7 @@ func smsBase(r *Rng, kind string) tpduSegs {
 	case "submit":
 		add("SC", 0)
 		fo := byte(r.Intn(64))<<2 | 1
+		fo = fo&^0x18 | byte(v%4)<<3
 		add("FO", fo)
 		add("MR", r.Byte())
 		add("DA", randAddrSeg(r)...)
@@ -315,7 +435,7 @@ func smsBase(r *Rng, kind string) tpduSegs {
 		switch fo >> 3 & 3 {
 		case 1: // enhanced
 			vp := make([]byte, 7)
-			switch r.Intn(4) {
+			switch (v/4 + 3) % 4 {
 			case 0:
 				vp[0] = byte(r.Intn(2)) << 6
 			case 1:
